@@ -7,6 +7,7 @@ import (
 	"go/types"
 	"os"
 	"path/filepath"
+	"regexp"
 	"sort"
 	"strconv"
 	"strings"
@@ -161,7 +162,7 @@ func (e *Engine) runPath(entry *ssa.Function, prefix []Decision) (end pathEnd) {
 			case goPanic:
 				end = pathEnd{"panic", e.valString(r.v) + " @ " + e.where()}
 				if e.panicsReport {
-					e.reportKind("panic", e.valString(r.v), nil)
+					e.reportKind("panic", normPanic(e.valString(r.v))+" in "+e.curFunc(), nil)
 				}
 			case unsupportedErr:
 				where := ""
@@ -557,4 +558,16 @@ func main() {
 		fmt.Println("functions encoded:", len(res.Funcs), "stdlib interpreted:", len(res.StdFuncs), "models:", len(res.Models))
 	}
 	writeJSON()
+}
+
+var digitsRe = regexp.MustCompile(`-?[0-9]+`)
+
+// normPanic removes the concrete numbers from a runtime panic message so that one defect is one identity.
+func normPanic(s string) string { return digitsRe.ReplaceAllString(s, "N") }
+
+func (e *Engine) curFunc() string {
+	if e.cur == nil || e.cur.Parent() == nil {
+		return "?"
+	}
+	return e.cur.Parent().String()
 }
